@@ -79,6 +79,16 @@ class UpdateHandler(MessageHandler):
 
         log.debug(lazymsg('update.received number={number}', number=self._number), ctx.peer_id)
 
+        # Process withdraws first: a prefix both withdrawn and announced by one UPDATE stays announced (RFC 4271 4.3)
+        for nlri in parsed.withdraws:
+            ctx.neighbor.rib.incoming.update_cache_withdraw(nlri)
+            self._audit_withdraw(ctx, nlri)
+            ctx.stats['receive-withdraws'] += 1
+            log.debug(
+                lazyformat('update.nlri number=%d nlri=' % self._number, nlri, str),
+                ctx.peer_id,
+            )
+
         # Process announces - create Route objects for cache
         # parsed.announces contains RoutedNLRI objects; extract the bare NLRI for RIB
         for routed in parsed.announces:
@@ -87,16 +97,6 @@ class UpdateHandler(MessageHandler):
             ctx.neighbor.rib.incoming.update_cache(route)
             self._audit_announce(ctx, nlri)
             ctx.stats['receive-prefixes'] += 1
-            log.debug(
-                lazyformat('update.nlri number=%d nlri=' % self._number, nlri, str),
-                ctx.peer_id,
-            )
-
-        # Process withdraws - use dedicated method
-        for nlri in parsed.withdraws:
-            ctx.neighbor.rib.incoming.update_cache_withdraw(nlri)
-            self._audit_withdraw(ctx, nlri)
-            ctx.stats['receive-withdraws'] += 1
             log.debug(
                 lazyformat('update.nlri number=%d nlri=' % self._number, nlri, str),
                 ctx.peer_id,
@@ -116,6 +116,16 @@ class UpdateHandler(MessageHandler):
 
         log.debug(lazymsg('update.received number={number}', number=self._number), ctx.peer_id)
 
+        # Process withdraws first: a prefix both withdrawn and announced by one UPDATE stays announced (RFC 4271 4.3)
+        for nlri in parsed.withdraws:
+            ctx.neighbor.rib.incoming.update_cache_withdraw(nlri)
+            self._audit_withdraw(ctx, nlri)
+            ctx.stats['receive-withdraws'] += 1
+            log.debug(
+                lazyformat('update.nlri number=%d nlri=' % self._number, nlri, str),
+                ctx.peer_id,
+            )
+
         # Process announces - create Route objects for cache
         # parsed.announces contains RoutedNLRI objects; extract the bare NLRI for RIB
         for routed in parsed.announces:
@@ -124,16 +134,6 @@ class UpdateHandler(MessageHandler):
             ctx.neighbor.rib.incoming.update_cache(route)
             self._audit_announce(ctx, nlri)
             ctx.stats['receive-prefixes'] += 1
-            log.debug(
-                lazyformat('update.nlri number=%d nlri=' % self._number, nlri, str),
-                ctx.peer_id,
-            )
-
-        # Process withdraws - use dedicated method
-        for nlri in parsed.withdraws:
-            ctx.neighbor.rib.incoming.update_cache_withdraw(nlri)
-            self._audit_withdraw(ctx, nlri)
-            ctx.stats['receive-withdraws'] += 1
             log.debug(
                 lazyformat('update.nlri number=%d nlri=' % self._number, nlri, str),
                 ctx.peer_id,
